@@ -1,3 +1,4 @@
+pub mod canon;
 pub mod color;
 pub mod colornames;
 pub mod css;
